@@ -2,6 +2,7 @@ package rules
 
 import (
 	"go/types"
+	"strings"
 
 	"golang.org/x/tools/go/ssa"
 
@@ -77,7 +78,9 @@ func c48(r *core.Run) {
 	// conversion call runs on every iteration of the argument loop (it dominates every back edge), so an optional parameter
 	// receives a boxed value on every path of a branching argument
 	if fn := mustFn(r, "R4.emitconvert", "bbq/compiler", "Compiler", "VisitEmitStatement"); fn != nil {
-		n := callsDominateBackEdges(r, "R4.emitconvert", fn, func(o *types.Func) bool { return o != nil && (o.Name() == "emitConvert" || o.Name() == "emitTransferAndConvert" || o.Name() == "mustEmitTransferAndConvert") },
+		n := callsDominateBackEdges(r, "R4.emitconvert", fn, func(o *types.Func) bool {
+			return o != nil && (o.Name() == "emitConvert" || o.Name() == "emitTransferAndConvert" || o.Name() == "mustEmitTransferAndConvert")
+		},
 			"bbq/compiler.(Compiler).VisitEmitStatement: argument conversion", "the conversion of an event argument to its parameter type is skipped on some iteration of the argument loop (e.g. when the last emitted instruction is `nil`): a branching argument reaches an optional field unboxed in the VM only")
 		if n == 0 {
 			r.Undecided("R4.emitconvert", "bbq/compiler.(Compiler).VisitEmitStatement", "no conversion call inside the argument loop")
@@ -147,7 +150,8 @@ func c49(r *core.Run) {
 		r.Check(len(sb) >= 1 && len(ds) >= 1 && core.Dominates(sb[0], ds[0]), "R2.remove", key+": base restored before destruction", fn.Pos(),
 			"SetBaseValue precedes Destroy", "the attachment is destroyed without its base being set (its destructor/events cannot read base)")
 	}
-	r.Floor("R2.remove", 4)
+	removeAbsentIsNoop(r, "R2.remove")
+	r.Floor("R2.remove", 6)
 
 	// R3 the base of an attachment is always rebound: every returning path of CompositeValue.SetBaseValue assigns v.base (a
 	// resource moved within an account gets a new wrapper with the same value ID; keeping the old wrapper leaves `base`
@@ -207,4 +211,27 @@ func callsDominateBackEdges(r *core.Run, rule string, fn *ssa.Function, sel func
 		r.Check(ok, rule, what+" #"+itoa(n)+" runs on every iteration", posOf(c), "the call dominates every back edge of its loop", why)
 	}
 	return n
+}
+
+// removeAbsentIsNoop: in both engines `remove A from v` of an attachment that is not attached is a no-op: the handler returns
+// normally under a nil test of RemoveTypeKey's result, before the result is type-asserted (a nil interface fails the
+// assertion and surfaces as an internal "unreachable" error in one engine only).
+func removeAbsentIsNoop(r *core.Run, rule string) {
+	for _, f := range [][3]string{{"interpreter", "Interpreter", "VisitRemoveStatement"}, {"bbq/vm", "", "opRemoveTypeIndex"}} {
+		fn := mustFn(r, rule, f[0], f[1], f[2])
+		if fn == nil {
+			continue
+		}
+		ok := false
+		for _, ret := range core.Returns(fn) {
+			for _, a := range core.ControllingConds(ret) {
+				d := core.CondDesc(a.Var.Call, a.Val)
+				if (strings.HasPrefix(d, "+==(") || strings.HasPrefix(d, "-!=(")) && strings.Contains(d, "via:RemoveTypeKey") && strings.Contains(d, "const:nil") {
+					ok = true
+				}
+			}
+		}
+		r.Check(ok, rule, core.SSAKey(fn)+": absent attachment is a no-op", fn.Pos(), "returns under RemoveTypeKey(...) == nil",
+			"the handler no longer returns when RemoveTypeKey reports that the attachment is not attached: the nil result reaches the type assertion and the statement fails with an internal error in this engine")
+	}
 }
